@@ -75,3 +75,19 @@ Proof.
       apply IH. lia. }
   apply (G f 0). lia.
 Qed.
+
+(* ------------------------------------------------------------------ normalize_factors = False on a state (weights, factors) *)
+(* a sweep that only writes the factors (its type says so: it returns new factors, the weights are passed through) cannot change the
+   weights, whatever it computes and whichever path the loop takes: the returned weights are those of the initialisation *)
+Section PairState.
+  Variables W F : Type.
+  Variable upd : W -> F -> F.                     (* one sweep: new factors from the current weights and factors *)
+  Variable normalise : W * F -> W * F.
+  Definition sweep_pair (s : W * F) : W * F := (fst s, upd (fst s) (snd s)).
+  Lemma cp_run_keeps_weights tol_set ik all_fixed n decisions w0 f0 :
+    fst (cp_run (W * F) sweep_pair normalise false tol_set ik all_fixed n decisions (w0, f0)) = w0.
+  Proof.
+    apply (cp_run_unit_weights (W * F) sweep_pair normalise (fun s => fst s = w0)); [|reflexivity].
+    intros s Hs. exact Hs.
+  Qed.
+End PairState.
